@@ -453,7 +453,17 @@ pub fn text_variants(rng: &mut StdRng, with_san: bool) -> Value {
             for status in [true, false] {
                 let mut e = json!({"nums": nums, "style": style, "status": status});
                 if nums == "custom" {
-                    e["custom"] = json!(rng.gen_range(0..2000));
+                    // small numbers, and numbers around / beyond the 16-bit range of the board's own counter
+                    let c: u64 = match rng.gen_range(0..8) {
+                        0 => 65534,
+                        1 => 65535,
+                        2 => 65536,
+                        3 => 100000,
+                        4 => 2_000_000_000,
+                        5 => 0,
+                        _ => rng.gen_range(0..2000),
+                    };
+                    e["custom"] = json!(c);
                 }
                 v.push(e);
             }
@@ -526,6 +536,55 @@ pub fn session(rng: &mut StdRng, ctx: &Ctx, start: &Board, nops: usize, profile:
     }
     let _ = Color::White;
     evs
+}
+
+/// Long games with promotions at chosen plies, printed as a UCI list: sweeps the ALIGNMENT of the 5-character
+/// promotion tokens against every other token (text-length dependent defects of the printer).
+pub fn ucilist_sweep(max_ply: usize) -> Vec<Value> {
+    let mut out = Vec::new();
+    let start = Board::from_fen("8/PPPPPPPP/8/7k/8/8/8/K7 w - - 0 1").unwrap();
+    let mut first = 1;
+    while first < max_ply {
+        let mut second = first + 2;
+        while second <= max_ply {
+            let r = std::panic::catch_unwind(|| {
+                let mut c = Chain::new(start.clone());
+                let mut promoted = 0usize;
+                for ply in 1..=(second + 2) {
+                    let b = c.last().clone();
+                    let lg = legal::gen_all(&b);
+                    let want_promo = ply % 2 == 1 && (ply == first || ply == second);
+                    let m = if want_promo {
+                        lg.iter().copied().find(|m| m.kind() == MoveKind::PromoteKnight && m.src().file().index() == promoted)
+                    } else {
+                        // a quiet king step (never a capture, never leaving the shuffling area)
+                        lg.iter().copied().find(|m| m.src_cell().piece() == Some(owlchess::types::Piece::King) && b.get(m.dst()).is_free())
+                    };
+                    let m = match m {
+                        Some(m) => m,
+                        None => break,
+                    };
+                    if want_promo {
+                        promoted += 1;
+                    }
+                    if c.push(m).is_err() {
+                        break;
+                    }
+                }
+                let t = c.uci().to_string();
+                let eq = Chain::from_uci_list(start.clone(), &t).map(|x| x == c).unwrap_or(false);
+                (c.iter().collect::<Vec<_>>(), t, eq)
+            });
+            match r {
+                Ok((moves, t, eq)) => out.push(json!({"ev": "ucilist", "first": first, "second": second, "moves": mvs_json(&moves),
+                                                      "text": text_json(&t), "rebuilt_eq": eq})),
+                Err(_) => out.push(json!({"ev": "ucilist", "first": first, "second": second, "moves": [], "panic": true})),
+            }
+            second += 2;
+        }
+        first += 2;
+    }
+    out
 }
 
 /// Engine S2I: executes a behaviour generated by TLC from the system specification and compares the
